@@ -34,10 +34,11 @@ def main():
     rc, out = sh("git -C /repo worktree add --detach -f %s HEAD" % wt)
     res = {"applies": False}
     try:
+        os.makedirs(os.path.dirname(os.path.join(wt, dest)) if not dest.endswith("/") else os.path.join(wt, dest), exist_ok=True)
         shutil.copy(os.path.join(src, "demo_test.go"), os.path.join(wt, dest))
         rc0, out0 = sh("timeout 600 " + gotest, cwd=wt)
         res["demo_passes_without_change"] = rc0 == 0
-        os.remove(os.path.join(wt, dest))
+        os.remove(os.path.join(wt, dest, "demo_test.go") if dest.endswith("/") else os.path.join(wt, dest))
         sh("git checkout go.mod go.sum", cwd=wt)
         rc, out = sh("git apply %s" % os.path.join(src, "patch.diff"), cwd=wt)
         res["applies"] = rc == 0
@@ -53,6 +54,7 @@ def main():
             if not res["baseline_tests_pass"]:
                 res["baseline_failures"] = [l for l in outt.split("\n") if "FAIL" in l][:8]
             sh("git checkout go.mod go.sum", cwd=wt)
+            os.makedirs(os.path.dirname(os.path.join(wt, dest)) if not dest.endswith("/") else os.path.join(wt, dest), exist_ok=True)
             shutil.copy(os.path.join(src, "demo_test.go"), os.path.join(wt, dest))
             rc1, out1 = sh("timeout 600 " + gotest, cwd=wt)
             res["demo_fails_with_change"] = rc1 != 0
